@@ -17,7 +17,7 @@ Import ListNotations.
 From Omega Require Import L5Cover.Boxes L5Cover.BoxesProofs L5Cover.MinCover
   L5Cover.MinCoverProofs L5Cover.MinCoverBounded L5Cover.MinCoverBounded3L
   L5Cover.MinCoverBounded4 L5Cover.BoundsProofs L5Cover.FloorLit
-  L5Cover.FloorLitProofs.
+  L5Cover.FloorLitProofs L5Cover.MinCoverOld L5Cover.MinCoverRefuted.
 Open Scope Z_scope.
 
 (* ---- (1) the order used by the code is inclusion of boxes *)
@@ -111,6 +111,31 @@ Example C09_refuted_unrepaired_returns :
             length K = 5%nat.
 Proof. exact minimize_unrepaired_fails. Qed.
 
+(* regression for finding F16 (repaired by fixes/F16.patch): with the
+   unrepaired leaf of cover._traverse (MinCoverOld.v: a leaf is accepted
+   without comparing its cost with bab.upper_bound) the model returns a cover
+   that is NOT minimum for some pick function: six two-valued variables, the
+   model returns 4 primes although 3 primes cover f; the repaired model
+   returns a minimum cover on the same instance and pick *)
+Example C09_refuted_unrepaired_leaf :
+  (forall s b, w_pick s = Some b -> In b s) /\
+  exists K K',
+    minimize_old w_rs w_pick w_f w_care = Some K /\
+    prime_cover w_rs w_f w_care K' /\ (length K' < length K)%nat.
+Proof. exact minimize_old_not_minimum_witness. Qed.
+
+Example C09_refuted_unrepaired_leaf_full :
+  ~ (forall rs pick f care K,
+       (forall s b, pick s = Some b -> In b s) ->
+       minimize_old rs pick f care = Some K ->
+       min_prime_cover rs f care K).
+Proof. exact minimize_old_full_refuted. Qed.
+
+Example C09_repaired_leaf_witness :
+  exists K, minimize w_rs w_pick w_f w_care = Some K /\
+            min_prime_cover w_rs w_f w_care K.
+Proof. exact w_minimize_repaired_3. Qed.
+
 (* the model computes floors/ceilings as joins/meets; the quantified BDD
    formulas of cover._floor / _contains_covered (FloorLit.v, literal) define
    exactly these, over all parameter assignments [pwf] *)
@@ -178,3 +203,5 @@ Print Assumptions C09_bounded_3_pick_last.
 Print Assumptions C09_bounded_4.
 Print Assumptions C09_bounded_grid.
 Print Assumptions C09_bounded_grid_pick_last.
+Print Assumptions C09_refuted_unrepaired_leaf.
+Print Assumptions C09_refuted_unrepaired_leaf_full.
